@@ -66,3 +66,11 @@ Proof. vm_compute. repeat split. Qed.
 Example C14_example_patched :
   emit_action patched Huawei env0 (ANextHop NHv4 "192.0.2.1") = ([["apply"; "ip-address"; "next-hop"; "192.0.2.1"]], None).
 Proof. vm_compute. reflexivity. Qed.
+
+(* (d) on whole streams: for every vendor and every well-formed program, in the run of every
+   generator an error attributed to an item comes with no row tagged with that item. *)
+From Annet Require Import Proofs.RplStream.
+Theorem C14_stream_error_before_lines :
+  forall (v : vendor) (g : prog), P_C14_d v g (model_obs patched v g) = true.
+Proof. exact model_P_C14_d. Qed.
+Print Assumptions C14_stream_error_before_lines.
